@@ -226,26 +226,21 @@ Section Facts.
     /\ (forall iv v, In iv (all_input_values S) -> iv_default iv = Some v -> value_ok v = true)
     /\ (s_query S <> #"schema" /\ ~ In (s_query S) (map dd_name (s_directives S)))
     /\ (forall t, In t (s_types S) -> ~ In (td_name t) base_scalar_names)
-    /\ (forall d, In d (s_directives S) -> ~ In (dd_name d) (map dd_name base_public_directives))
-    /\ (s_mutation S = None -> has_object_named #"Mutation" S = false)
-    /\ (s_subscription S = None -> has_object_named #"Subscription" S = false).
+    /\ (forall d, In d (s_directives S) -> ~ In (dd_name d) (map dd_name base_public_directives)).
   Proof.
     pose proof GOK as G0. unfold gen_ok, generate_lossy in G0.
     apply app_nil_both in G0. destruct G0 as [G1 G]. apply app_nil_both in G. destruct G as [G3 G].
-    apply app_nil_both in G. destruct G as [G4 G]. apply app_nil_both in G. destruct G as [G5 G6].
-    apply if_nil in G1. apply if_nil in G3. apply if_nil in G4. apply if_nil in G5. apply if_nil in G6.
+    apply app_nil_both in G. destruct G as [G4 G5].
+    apply if_nil in G1. apply if_nil in G3. apply if_nil in G4. apply if_nil in G5.
     apply orb_false_iff in G1. destruct G1 as [G1a G1b].
     apply orb_false_iff in G4. destruct G4 as [G4a G4b].
     apply orb_false_iff in G5. destruct G5 as [G5a G5b].
-    apply orb_false_iff in G6. destruct G6 as [G6a G6b].
     split. { intros ds I. apply (existsb_false_In _ _ _ G1a I). }
     split. { intros t I. apply (existsb_false_In _ _ _ G1b I). }
     split. { intros iv v I E. pose proof (existsb_false_In _ _ _ G3 I) as G. cbv beta in G. rewrite E in G.
       apply negb_false_iff in G. auto. }
     split. { split. { apply bytes_eqb_neq. auto. } intro I. apply mem_bytes_In in I. congruence. }
     split. { intros t I M. pose proof (existsb_false_In _ _ _ G5a I) as G. cbv beta in G. apply mem_bytes_In in M. congruence. }
-    split. { intros d I M. pose proof (existsb_false_In _ _ _ G5b I) as G. cbv beta in G. apply mem_bytes_In in M. congruence. }
-    split. { intro E. rewrite E in G6a. auto. }
-    intro E. rewrite E in G6b. auto.
+    intros d I M. pose proof (existsb_false_In _ _ _ G5b I) as G. cbv beta in G. apply mem_bytes_In in M. congruence.
   Qed.
 End Facts.
